@@ -1,3 +1,155 @@
 import Gengo.Model.Loader
+import Gengo.Generated.Facts
+/-! # C06 – one object per type: identity is canonical and references are closed -/
 namespace Gengo.C06
+open Gengo Gengo.Universe
+
+/-- index bindings persist -/
+def Le (u u' : U) : Prop :=
+  (∀ n o, AL.lookup n u.types = some o → AL.lookup n u'.types = some o) ∧
+  (∀ n o, AL.lookup n u.funcs = some o → AL.lookup n u'.funcs = some o) ∧
+  (∀ n o, AL.lookup n u.vars = some o → AL.lookup n u'.vars = some o) ∧
+  (∀ n o, AL.lookup n u.consts = some o → AL.lookup n u'.consts = some o)
+
+/-- existing objects are untouched -/
+def Keeps (u u' : U) : Prop := ∀ (i : Nat) (ob : Obj), u.objs[i]? = some ob → u'.objs[i]? = some ob
+
+theorem lookup_cons_ne {α} [DecidableEq α] {β} (k k' : α) (v : β) (r : List (α × β)) (h : k' ≠ k) :
+    AL.lookup k ((k', v) :: r) = AL.lookup k r := by simp [AL.lookup, h]
+
+theorem lookup_cons_self {α} [DecidableEq α] {β} (k : α) (v : β) (r : List (α × β)) :
+    AL.lookup k ((k, v) :: r) = some v := by simp [AL.lookup]
+
+theorem package_keeps (u : U) (p : Str) :
+    (u.package p).objs = u.objs ∧ (u.package p).types = u.types ∧ (u.package p).funcs = u.funcs ∧
+    (u.package p).vars = u.vars ∧ (u.package p).consts = u.consts ∧ (u.package p).builtinObjs = u.builtinObjs := by
+  unfold U.package; split <;> simp
+
+theorem keeps_append (objs : List Obj) (o : Obj) (i : Nat) (ob : Obj) (h : objs[i]? = some ob) :
+    (objs ++ [o])[i]? = some ob := by
+  have hlt : i < objs.length := (List.getElem?_eq_some_iff.mp h).1
+  simp [List.getElem?_append_left hlt, h]
+
+/-- **lookup_idempotent**: `u.Type(n)` twice returns the same object and the second lookup changes nothing -/
+theorem type_idempotent (bt : List Builtin) (u : U) (n : Name) :
+    U.type bt (U.type bt u n).1 n = ((U.type bt u n).1, (U.type bt u n).2) := by
+  have key : AL.lookup n (U.type bt u n).1.types = some (U.type bt u n).2 := by
+    unfold U.type
+    split
+    · rename_i o h; exact h
+    · simp only
+      split
+      · split <;> exact lookup_cons_self _ _ _
+      · exact lookup_cons_self _ _ _
+  generalize U.type bt u n = r at key
+  unfold U.type
+  rw [key]
+
+/-- **lookup_monotone**: a lookup never changes an existing binding or an existing object -/
+theorem type_monotone (bt : List Builtin) (u : U) (n : Name) :
+    (∀ m o, AL.lookup m u.types = some o → AL.lookup m (U.type bt u n).1.types = some o) ∧
+    Keeps u (U.type bt u n).1 ∧
+    (U.type bt u n).1.funcs = u.funcs ∧ (U.type bt u n).1.vars = u.vars ∧ (U.type bt u n).1.consts = u.consts := by
+  unfold U.type
+  split
+  · exact ⟨fun _ _ h => h, fun _ _ h => h, rfl, rfl, rfl⟩
+  · rename_i hnone
+    have hp := package_keeps u n.pkg
+    have hne : ∀ m o, AL.lookup m u.types = some o → m ≠ n := by
+      intro m o hm e; subst e; rw [hnone] at hm; cases hm
+    simp only
+    split
+    · split
+      · refine ⟨?_, ?_, ?_, ?_, ?_⟩
+        · intro m o hm
+          simp only
+          rw [lookup_cons_ne _ _ _ _ (fun e => hne m o hm e.symm), hp.2.1]; exact hm
+        · intro i ob h; simp only; rw [hp.1]; exact h
+        · exact hp.2.2.1
+        · exact hp.2.2.2.1
+        · exact hp.2.2.2.2.1
+      · refine ⟨?_, ?_, ?_, ?_, ?_⟩
+        · intro m o hm
+          simp only [U.newObj]
+          rw [lookup_cons_ne _ _ _ _ (fun e => hne m o hm e.symm), hp.2.1]; exact hm
+        · intro i ob h; simp only [U.newObj]; rw [hp.1]; exact keeps_append _ _ _ _ h
+        · simp only [U.newObj]; exact hp.2.2.1
+        · simp only [U.newObj]; exact hp.2.2.2.1
+        · simp only [U.newObj]; exact hp.2.2.2.2.1
+    · refine ⟨?_, ?_, ?_, ?_, ?_⟩
+      · intro m o hm
+        simp only [U.newObj]
+        rw [lookup_cons_ne _ _ _ _ (fun e => hne m o hm e.symm), hp.2.1]; exact hm
+      · intro i ob h; simp only [U.newObj]; rw [hp.1]; exact keeps_append _ _ _ _ h
+      · simp only [U.newObj]; exact hp.2.2.1
+      · simp only [U.newObj]; exact hp.2.2.2.1
+      · simp only [U.newObj]; exact hp.2.2.2.2.1
+
+def declIdx (u : U) : Decl → List (Name × Nat)
+  | .func => u.funcs
+  | .var => u.vars
+  | .const => u.consts
+
+theorem decl_binds (u : U) (d : Decl) (n : Name) : AL.lookup n (declIdx (u.decl d n).1 d) = some (u.decl d n).2 := by
+  cases d <;>
+  · unfold U.decl declIdx
+    simp only
+    split
+    · rename_i o h; exact h
+    · simp [U.newObj, AL.lookup]
+
+/-- `u.Function/Variable/Constant(n)` twice returns the same object -/
+theorem decl_idempotent (u : U) (d : Decl) (n : Name) :
+    (u.decl d n).1.decl d n = ((u.decl d n).1, (u.decl d n).2) := by
+  have key := decl_binds u d n
+  generalize u.decl d n = r at key
+  cases d <;>
+  · unfold U.decl
+    unfold declIdx at key
+    simp only at key ⊢
+    rw [key]
+
+/-- the content of a builtin object depends on the table entry only – the same in every universe
+(pointer identity across universes is checked on the real code by the harness) -/
+theorem builtin_object_content (bt : List Builtin) (u : U) (k : Str) (b : Builtin)
+    (hb : bt.find? (fun b => b.key = k) = some b) (hnew : AL.lookup ⟨[], k⟩ u.types = none)
+    (hfresh : AL.lookup b.var (u.package []).builtinObjs = none) :
+    (U.type bt u ⟨[], k⟩).1.objs[(U.type bt u ⟨[], k⟩).2]? = some { name := ⟨[], b.name⟩, kind := b.kind } := by
+  unfold U.type
+  simp only [hnew, List.isEmpty_nil, if_true, hb, hfresh, U.newObj]
+  simp
+
+/-- **builtins_shared**: two keys bound to the same Go variable resolve to one object -/
+theorem builtins_shared (bt : List Builtin) (u : U) (k1 k2 : Str) (b1 b2 : Builtin)
+    (h1 : bt.find? (fun b => b.key = k1) = some b1) (h2 : bt.find? (fun b => b.key = k2) = some b2)
+    (hv : b1.var = b2.var) (hne : k1 ≠ k2)
+    (hn1 : AL.lookup ⟨[], k1⟩ u.types = none) (hn2 : AL.lookup ⟨[], k2⟩ u.types = none) :
+    (U.type bt (U.type bt u ⟨[], k1⟩).1 ⟨[], k2⟩).2 = (U.type bt u ⟨[], k1⟩).2 := by
+  -- after the first lookup the variable's object is registered
+  have reg : ∃ o, (U.type bt u ⟨[], k1⟩).2 = o ∧ AL.lookup b1.var (U.type bt u ⟨[], k1⟩).1.builtinObjs = some o ∧
+      AL.lookup ⟨[], k2⟩ (U.type bt u ⟨[], k1⟩).1.types = none := by
+    unfold U.type
+    simp only [hn1, List.isEmpty_nil, if_true, h1]
+    have hk : (⟨[], k1⟩ : Name) ≠ ⟨[], k2⟩ := by intro e; cases e; exact hne rfl
+    have hp := package_keeps u []
+    split
+    · rename_i o ho
+      refine ⟨o, rfl, ?_, ?_⟩
+      · simpa using ho
+      · simp only; rw [lookup_cons_ne _ _ _ _ hk, hp.2.1]; exact hn2
+    · refine ⟨_, rfl, ?_, ?_⟩
+      · simp [U.newObj, AL.lookup]
+      · simp only [U.newObj]; rw [lookup_cons_ne _ _ _ _ hk, hp.2.1]; exact hn2
+  obtain ⟨o, ho, hreg, hn2'⟩ := reg
+  generalize U.type bt u ⟨[], k1⟩ = r at ho hreg hn2'
+  unfold U.type
+  simp only [hn2', List.isEmpty_nil, if_true, h2]
+  have hp := package_keeps r.1 []
+  rw [hp.2.2.2.2.2, ← hv, hreg]
+  simp [ho]
+
+/-- the two keys of the real tables that share an object -/
+theorem byte_uint8_shared_v1 :
+    (Generated.builtinsV1.find? (fun e => e.1 = "byte")).map (·.2.1) = (Generated.builtinsV1.find? (fun e => e.1 = "uint8")).map (·.2.1) := by decide
+
 end Gengo.C06
